@@ -262,7 +262,7 @@ def subprocess_observations():
 
 def run_c12(rep, tier):
     cfg = 'Routes_quick.cfg' if tier == 'quick' else 'Routes_thorough.cfg'
-    out, st = common.run_tlc('Routes', cfg=cfg, workers=4, timeout=1500, xmx='6g')
+    out, st = common.run_tlc('Routes', cfg=cfg, workers=4, timeout=1500, xmx='6g', coverage=True)
     rep.add_design('Routes', cfg, out, st, 'kinds x routes x option sets; invariants SameDocument, CliDropsUnsupported; export of route vectors')
     vecs = common.parse_vectors(out)
     rep.notes['route_vectors_exported_by_tlc'] = len(vecs)
